@@ -92,7 +92,7 @@ func (r btReport) frames() string {
 }
 
 func checkC20(c *Ctx) {
-	c.Rule = "(a) call chains = EVERY behaviour of Backtrace.tla with <= 3 steps (thorough: also 4 steps with 4 of the fault kinds) over 6 functions and methods (results 0 / 1 / 2) x every call-site shape (4..9 statement forms per callee, including return f()) x 22 fault kinds, plus TLC-simulated behaviours reaching depth 30 with many completed calls before the fault; each replayed as the script of a generated interpreter program (random function order, case order, padding, one or two files), entered by Load+Call and by Eval with trailing top-level code, optimizer on and off; (b) seeded random MiniGo programs with a fault planted (9 kinds x 9 statement shapes) at a random place; distinct_nontrivial = behaviours with at least one active call at the fault + faulting MiniGo programs"
+	c.Rule = "(a) call chains = EVERY behaviour of Backtrace.tla with <= 3 steps (thorough: also 4 steps with 4 of the fault kinds) over 6 functions and methods (results 0 / 1 / 2) x every call-site shape (4..9 statement forms per callee, including return f()) x 28 fault kinds (6 of them spread over several lines: the operator ends a line), plus TLC-simulated behaviours reaching depth 30 with many completed calls before the fault; each replayed as the script of a generated interpreter program (random function order, case order, padding, one or two files), entered by Load+Call and by Eval with trailing top-level code, optimizer on and off; (b) seeded random MiniGo programs with a fault planted (9 kinds x 9 statement shapes, divisions of two locals, half of them broken after the operator) at a random place; distinct_nontrivial = behaviours with at least one active call at the fault + faulting MiniGo programs"
 	c.Assumptions = []string{"the error text is parsed as documented (first line: function, file:line:column, instruction, message; then one tab-indented line per active call); columns and the instruction name are not compared (they legitimately differ between optimizer modes)", "calls through function literals are outside the property's quantifier (functions and methods) and not generated in (a)"}
 	r := rand.New(rand.NewSource(c.Seed))
 	c20Backtrace(c, r)
@@ -205,13 +205,13 @@ func c20Backtrace(c *Ctx, r *rand.Rand) {
 	}
 	dir := c.specWorkDir("bt-exh")
 	must(os.WriteFile(filepath.Join(dir, "MC_Backtrace.tla"), []byte(mc), 0o644))
-	must(os.WriteFile(filepath.Join(dir, "MC_Backtrace.cfg"), []byte(cfg(len(btFaults), 4, c.pick(3, 3), 0, 1)), 0o644))
+	must(os.WriteFile(filepath.Join(dir, "MC_Backtrace.cfg"), []byte(cfg(len(btFaults)+len(btFaultsML), 4, c.pick(3, 3), 0, 1)), 0o644))
 	res := c.runTLC(dir, TLCOpts{Module: "MC_Backtrace", Cfg: "MC_Backtrace.cfg", Workers: 8, HeapMB: 6000, Timeout: c.pickDur(5, 30)})
 	parse(res.Records["BEH"])
 	if !c.quick() {
 		// one step deeper with four fault kinds (which four depends on the seed)
 		kindMap = nil
-		for _, k := range rand.New(rand.NewSource(c.Seed)).Perm(len(btFaults))[:4] {
+		for _, k := range rand.New(rand.NewSource(c.Seed)).Perm(len(btFaults) + len(btFaultsML))[:4] {
 			kindMap = append(kindMap, k+1)
 		}
 		d := c.specWorkDir("bt-exh4")
@@ -228,7 +228,7 @@ func c20Backtrace(c *Ctx, r *rand.Rand) {
 	for i, mf := range []int{4, 15, 40, 80} {
 		d := c.specWorkDir(fmt.Sprintf("bt-sim%d", i))
 		must(os.WriteFile(filepath.Join(d, "MC_Backtrace.tla"), []byte(mc), 0o644))
-		must(os.WriteFile(filepath.Join(d, "MC_Backtrace.cfg"), []byte(cfg(len(btFaults), 30, mf+40, mf, 10)), 0o644))
+		must(os.WriteFile(filepath.Join(d, "MC_Backtrace.cfg"), []byte(cfg(len(btFaults)+len(btFaultsML), 30, mf+40, mf, 10)), 0o644))
 		rs := c.runTLC(d, TLCOpts{Module: "MC_Backtrace", Cfg: "MC_Backtrace.cfg", Workers: 1, Simulate: fmt.Sprintf("num=%d", c.pick(30, 400)), Depth: mf + 45, ExtraArgs: []string{"-seed", fmt.Sprint(c.Seed + int64(i))}})
 		recs := rs.Records["BEH"]
 		if lim := c.pick(600, 10000); len(recs) > lim {
@@ -530,9 +530,23 @@ func plantFault(p *Prog, r *rand.Rand, kind string, serial int) string {
 			ss = []*S{decl(zq, lit(TInt, 0)), {K: "opassign", Lhs: []*E{v(zq, TInt)}, Op: op, E: v(zq, TInt)}}
 			shape = "op-assignment " + op + "="
 		} else {
-			st, sh := intShape(&E{K: "bin", Ty: TInt, Op: op, L: lit(TInt, 7), R: v(zq, TInt)}, zq)
-			ss = []*S{decl(zq, lit(TInt, 0)), st}
-			shape = sh
+			// the dividend is a constant or a second local (local op local is what the peephole pass fuses);
+			// half of the expressions are broken after the operator
+			var left *E = lit(TInt, 7)
+			pre := []*S{decl(zq, lit(TInt, 0))}
+			if r.Intn(2) == 0 {
+				aq := "a" + sfx
+				pre = append([]*S{decl(aq, lit(TInt, int64(3+r.Intn(90))))}, pre...)
+				left = v(aq, TInt)
+				shape = "local"
+			}
+			be := &E{K: "bin", Ty: TInt, Op: op, L: left, R: v(zq, TInt), Break: r.Intn(2) == 0}
+			st, sh := intShape(be, zq)
+			ss = append(pre, st)
+			shape = strings.TrimSpace(shape + " " + sh)
+			if be.Break {
+				shape += " (broken after the operator)"
+			}
 		}
 	case "index", "indexset", "slicebounds":
 		xs := decl(xq, &E{K: "slicelit", Ty: SliceOf(TInt), Args: []*E{lit(TInt, 1), lit(TInt, 2)}})
@@ -664,6 +678,21 @@ var btShapes = map[int][][]string{
 }
 
 // fault kinds: lines with the fault on the first line; RET is replaced per result class
+var btFaultsML = []btFaultML{
+	{[]string{"lz := zero", "acc = acc /", "\tlz"}, 1},
+	{[]string{"lz := zero", "la := acc + 7", "acc = la /", "\tlz"}, 2},
+	{[]string{"lz := zero", "acc = acc %", "\tlz"}, 1},
+	{[]string{"acc = 1 +", "\tarr[d+100]"}, 1},
+	{[]string{"acc = add(acc,", "\t10/zero)"}, 1},
+	{[]string{"if acc >= 0 &&", "\t10/zero > 1 {", "\tacc++", "}"}, 1},
+}
+
+// multi-line fault kinds: the fault is on line at (0-based) of the statement lines
+type btFaultML struct {
+	lines []string
+	at    int
+}
+
 var btFaults = [][]string{
 	{"acc = 10 / zero"}, {"acc %= zero"}, {"acc = arr[d+100]"}, {"arr[d+100] = 1"}, {"nilm[1] = 1"}, {"acc = nilp.X"}, {"panic(\"boom\")"},
 	{"arr = arr[d+100:]"}, {"acc = int(str[d+100])"}, {"nilp.X = 3"}, {"acc += arr[d+100] * 2"}, {"if 10/zero > 1 {", "\tacc++", "}"},
@@ -800,6 +829,10 @@ func btBuild(r *rand.Rand, twoFiles bool) *btProgram {
 			}
 			key := btFaultKey{fi, ki + 1}
 			cases = append(cases, caseT{code: 900 + ki + 1, lines: lines, at: 0, mark: func(p btPos) { bp.faults[key] = p }})
+		}
+		for ki, fl := range btFaultsML {
+			key := btFaultKey{fi, len(btFaults) + ki + 1}
+			cases = append(cases, caseT{code: 900 + len(btFaults) + ki + 1, lines: fl.lines, at: fl.at, mark: func(p btPos) { bp.faults[key] = p }})
 		}
 		r.Shuffle(len(cases), func(i, j int) { cases[i], cases[j] = cases[j], cases[i] })
 		for _, cs := range cases {
